@@ -337,7 +337,7 @@ BATTERIES = {
  'C11': [dict(clause='entry')], 'C13': [dict(clause='extend')], 'C14': [dict(clause='offsets')], 'C15': [dict(clause='finite_difference')],
  'C16': [dict(driven=d, coupled=c, scaling=sc, method=m) for (d, c, sc) in ((1, 2, 0.7), (2, 1, -0.5), (0, 5, 1.5)) for m in ('forward', 'inverse', 'inverse_continuing_5dof')]
         + [dict(driven=5, coupled=2, scaling=0.5, method=m) for m in ('inverse_5dof', 'inverse_continuing_5dof')] + [dict(driven=5, coupled=1, scaling=-0.25, method='inverse_5dof')],
- 'C17': [dict(clause='main', eulerB=[0.3, -0.5, 0.7], eulerM=[-1.1, 0.4, 2.0], shift=[0.5, -0.25, 3.0], p1=[10.0, -4.0, 2.0], l=0.8, u=0.3, w=0.6), dict(clause='mismatch_search'), dict(clause='forward_transformed')],
+ 'C17': [dict(clause='main', eulerB=[0.3, -0.5, 0.7], eulerM=[-1.1, 0.4, 2.0], shift=[0.5, -0.25, 3.0], p1=[10.0, -4.0, 2.0], l=0.8, u=0.3, w=0.6), dict(clause='mismatch_search'), dict(clause='forward_transformed'), dict(clause='collinear_source'), dict(clause='collinear_target')],
  'C18': [dict(**{'from': [3.0, 5.0, -1.0, -2.0, 6.0, 0.5], 'to': [1.0, -5.0, -2.0, 2.0, 0.2, 0.5]})],
  'C19': [dict()], 'C20': [dict(seed=0, n=150)],
 }
